@@ -234,7 +234,7 @@ func v2(w *World, r *Report) {
 			if !isC {
 				return false
 			}
-			for _, a := range w.ledgerArms(c) {
+			for _, a := range w.ledgerArmsF(c) {
 				if a.Method == "Set" || a.Method == "SetFinality" {
 					return true
 				}
@@ -250,17 +250,18 @@ func v2(w *World, r *Report) {
 	sv := needFn(r, "V-2", w, fref{pkgStake, "StakeCtrler", "ValidateTrx"})
 	if sv != nil {
 		evalT := w.evalTxCond(txAbs{typ: 2})
-		for _, want := range []struct{ key, cond string }{
-			{"multiple-of-unit", "(new(uint256.Int).DivMod(p0.Tx.Amount, types.AmountPerPower(), new(uint256.Int))#1.Sign() != 0)"},
-			{"at-least-one-unit", "(new(uint256.Int).DivMod(p0.Tx.Amount, types.AmountPerPower(), new(uint256.Int))#0.Sign() <= 0)"},
+		// under "the amount is not a positive multiple of the power unit" a staking
+		// validation has no successful path (wherever the two tests live)
+		dm := `DivMod\(p0\.Tx\.Amount, types\.AmountPerPower\(\), new\(uint256\.Int\)\)`
+		for _, want := range []struct {
+			key  string
+			fact atom
+		}{
+			{"multiple-of-unit", AR(dm+`#1\.Sign\(\)$`, "!=", "^0$")},
+			{"at-least-one-unit", AR(dm+`#0\.Sign\(\)$`, "<=", "^0$")},
 		} {
-			gs := w.FindGuards(sv, func(c string) bool { return c == want.cond })
-			ok := len(gs) == 1
-			n := 0
-			if ok {
-				ok, n = w.okPathsPassGuard(sv, evalT, gs[0])
-			}
-			r.Check(ok && n > 0, "V-2", "ValidateTrx(staking):"+want.key, fmt.Sprintf("guard on all %d success paths of a staking validation: the amount converts to power exactly", n), "a staking amount that is not a positive multiple of the power unit can pass validation (the truncated remainder would vanish)", fnSite(w, sv))
+			ok, why := w.failsUnder(sv, evalT, want.fact)
+			r.Check(ok, "V-2", "ValidateTrx(staking):"+want.key, "no staking validation succeeds with such an amount: the amount converts to power exactly ("+why+")", "a staking amount that is not a positive multiple of the power unit can pass validation (the truncated remainder would vanish): "+why, fnSite(w, sv))
 		}
 	}
 	for _, c := range []struct{ fn, want string }{
